@@ -6,7 +6,7 @@ set -u
 export CARGO_NET_OFFLINE=true
 SFX=${MUT_SFX:-a}; SC=/tmp/mutrepo-$SFX; TG=/tmp/muttarget-$SFX; OUTB=/tmp/mutout-$SFX
 PROPS_CONC="C01 C02 C03 C04 C05 C06 C07 C08 C09 C10 C11 C12 C13 C14 C15 C16 C19"
-PROPS_SEQ="C12 C16 C18"
+PROPS_SEQ="C01 C08 C12 C16 C18"
 EXTRA=1
 for S in "$@"; do
   NAME=$(basename "$S")
